@@ -17,7 +17,7 @@ WIDTH_CTX = ["stmt", "stmt_nested", "linecomment", "linecomment_tab", "eol_comme
              "in_second_function", "header_proto", "header_define", "header_member", "global_decl", "ctrl_line", "decl_line",
              "block_after_function", "eol_comment_block", "two_long_lines_one_statement", "long_second_line_of_statement",
              "line_ending_in_splice", "two_long_lines_in_prototype", "block_mid_between_signature_and_brace",
-             "block_mid_in_struct", "block_mid_before_endif", "linecomment_between_signature_and_brace"]
+             "block_mid_in_struct", "block_mid_before_endif", "linecomment_between_signature_and_brace", "block_mid_trigraph"]
 LINES_CTX = ["plain", "with_decls", "with_blocks", "second_function", "nested_blocks", "wrapped_call2", "wrapped_call3",
              "wrapped_condition", "wrapped_assign_in_block", "else_chain", "nested_no_braces", "nested_no_braces_3",
              "no_braces_around_block", "no_brace_nest_at_end", "nest_then_else", "nested_in_block",
@@ -231,6 +231,12 @@ def build(limit, ctx, n, ex):
                 target = b.line
                 b.add("** ")
                 b.filler(w - 3, CC)
+                b.add("\n*/\n")
+            elif ctx == "block_mid_trigraph":
+                b.add("/*\n")
+                target = b.line
+                b.add("** ??< ")              # a trigraph inside the comment text: three columns in the source
+                b.filler(w - 7, CC)
                 b.add("\n*/\n")
             elif ctx == "block_mid_tab":
                 b.add("/*\n")
